@@ -4,10 +4,14 @@
 // real code of par.Work / par.Cache runs on the cooperative scheduler.  Nothing under the
 // repository is touched.
 //
-// Fail soft: if the source no longer has the expected shape (unsupported selector of a shimmed
-// package, a go statement with arguments, a compile error of the copy), a stub package with
-// Available = false and the reason is written instead, and the runner falls back to
-// uncontrolled stress runs of the unmodified package.
+// A go statement with arguments evaluates them first: go f(a) becomes { _ga0 := a; vsync.Go(func() { f(_ga0) }) }.
+// The shim provides Mutex, Cond, Map (all methods), Once, RWMutex, WaitGroup, the function forms and the typed
+// values of sync/atomic, and Intn / Int31n / Int63n of math/rand.
+//
+// Fail soft: if the source can still not be put on the scheduler (a selector of a shimmed package the shim does
+// not provide, channel operations, an import of time / runtime, a compile error of the copy), a stub package
+// with Available = false and the reason is written instead; the runner then reports that the source can no longer
+// be tied to the model (a correspondence finding) after running its direct oracles on the unmodified package.
 //
 // usage (from /verif/harness): go run ./cmd/pargen [-out gen/parv]
 package main
@@ -35,9 +39,40 @@ var shimmed = map[string]string{"sync": "sync", "sync/atomic": "atomic", "math/r
 
 // what the shim provides, per original package
 var provided = map[string]map[string]bool{
-	"sync":        {"Mutex": true, "Cond": true, "NewCond": true, "Map": true, "Locker": true}, // Mutex incl. TryLock
-	"sync/atomic": {"LoadUint32": true, "StoreUint32": true},
-	"math/rand":   {"Intn": true},
+	"sync": set("Mutex", "Cond", "NewCond", "Map", "Locker", "Once", "RWMutex", "WaitGroup"), // Mutex incl. TryLock; Map with all its methods
+	"sync/atomic": set("LoadUint32", "StoreUint32",
+		"LoadInt32", "LoadInt64", "LoadUint64", "LoadUintptr", "StoreInt32", "StoreInt64", "StoreUint64", "StoreUintptr",
+		"AddInt32", "AddInt64", "AddUint32", "AddUint64", "SwapInt32", "SwapInt64", "SwapUint32", "SwapUint64",
+		"CompareAndSwapInt32", "CompareAndSwapInt64", "CompareAndSwapUint32", "CompareAndSwapUint64",
+		"Int32", "Int64", "Uint32", "Uint64", "Bool", "Pointer", "Value"),
+	"math/rand": set("Intn", "Int31n", "Int63n"),
+}
+
+func set(names ...string) map[string]bool {
+	m := map[string]bool{}
+	for _, n := range names {
+		m[n] = true
+	}
+	return m
+}
+
+// shimType: is the type expression a type of one of the shimmed packages (sync.Mutex, atomic.Int32,
+// atomic.Pointer[T], ...)?  Fields of such types are synchronisation objects, not ordinary shared variables.
+func shimType(e ast.Expr, local map[string]string) bool {
+	for {
+		switch x := e.(type) {
+		case *ast.IndexExpr:
+			e = x.X
+			continue
+		case *ast.IndexListExpr:
+			e = x.X
+			continue
+		case *ast.SelectorExpr:
+			id, ok := x.X.(*ast.Ident)
+			return ok && local[id.Name] != ""
+		}
+		return false
+	}
 }
 
 // plainFields: the fields of struct cacheEntry that are ordinary shared variables: not of a sync type and
@@ -54,10 +89,8 @@ func plainFields(f *ast.File, local map[string]string) map[string]bool {
 			return true
 		}
 		for _, fl := range st.Fields.List {
-			if sel, ok := fl.Type.(*ast.SelectorExpr); ok {
-				if x, ok := sel.X.(*ast.Ident); ok && local[x.Name] != "" {
-					continue // sync.Mutex etc.
-				}
+			if shimType(fl.Type, local) {
+				continue // sync.Mutex etc.
 			}
 			for _, nm := range fl.Names {
 				res[nm.Name] = true
@@ -169,10 +202,8 @@ func instrumentWork(f *ast.File, local map[string]string) int {
 		}
 		if st, ok := ts.Type.(*ast.StructType); ok {
 			for _, fl := range st.Fields.List {
-				if sel, ok := fl.Type.(*ast.SelectorExpr); ok {
-					if x, ok := sel.X.(*ast.Ident); ok && local[x.Name] != "" {
-						continue
-					}
+				if shimType(fl.Type, local) {
+					continue
 				}
 				for _, nm := range fl.Names {
 					fields[nm.Name] = true
@@ -400,9 +431,22 @@ func rewrite(src string, plain bool) ([]byte, error) {
 		if !ok {
 			return s
 		}
+		var pre ast.Stmt
 		if len(g.Call.Args) != 0 {
-			bad = fmt.Errorf("%s: go statement with arguments is not supported", fset.Position(g.Pos()))
-			return s
+			// go f(a, b)  ==>  { _ga0, _ga1 := a, b; vsyncgo.Go(func() { f(_ga0, _ga1) }) }: the arguments are
+			// evaluated by the goroutine that executes the go statement
+			as := &ast.AssignStmt{Tok: token.DEFINE}
+			call := &ast.CallExpr{Fun: g.Call.Fun, Ellipsis: g.Call.Ellipsis}
+			for i, a := range g.Call.Args {
+				id := fmt.Sprintf("_ga%d", i)
+				as.Lhs = append(as.Lhs, ast.NewIdent(id))
+				as.Rhs = append(as.Rhs, a)
+				call.Args = append(call.Args, ast.NewIdent(id))
+			}
+			if call.Ellipsis.IsValid() {
+				call.Ellipsis = token.Pos(1)
+			}
+			pre, g = as, &ast.GoStmt{Go: g.Go, Call: call}
 		}
 		if _, isLit := g.Call.Fun.(*ast.FuncLit); !isLit {
 			if sel, ok := g.Call.Fun.(*ast.SelectorExpr); !ok {
@@ -416,13 +460,17 @@ func rewrite(src string, plain bool) ([]byte, error) {
 			}
 		}
 		nGo++
-		return &ast.ExprStmt{X: &ast.CallExpr{
+		spawn := &ast.ExprStmt{X: &ast.CallExpr{
 			Fun: &ast.SelectorExpr{X: ast.NewIdent("vsyncgo"), Sel: ast.NewIdent("Go")},
 			Args: []ast.Expr{&ast.FuncLit{
 				Type: &ast.FuncType{Params: &ast.FieldList{}},
 				Body: &ast.BlockStmt{List: []ast.Stmt{&ast.ExprStmt{X: g.Call}}},
 			}},
 		}}
+		if pre != nil {
+			return &ast.BlockStmt{List: []ast.Stmt{pre, spawn}}
+		}
+		return spawn
 	}
 	fix = func(list []ast.Stmt) {
 		for i := range list {
